@@ -329,12 +329,10 @@ Definition ufit (r : req) (t : tree) : bool :=
   | _ => false
   end.
 
-(* kinds whose converter is NOT covered: raw elements, references, headings, list/enum/term items and code blocks; a
-   paragraph break and a comment are not calm either *)
+(* kinds whose converter is NOT covered: code blocks; a paragraph break and a comment are not calm either *)
 Definition okind (k : kind) : bool :=
   match k with
-  | KParbreak | KLineComment | KBlockComment | KRaw | KRef | KHeading | KListItem | KEnumItem
-  | KTermItem | KCode | KCodeBlock => false
+  | KParbreak | KLineComment | KBlockComment | KCode | KCodeBlock => false
   | _ => true
   end.
 (* the callee of a call is `table` or `grid` (their argument lists have layouts of their own) *)
@@ -347,7 +345,7 @@ Fixpoint rs (t : tree) : bool :=
   okind (kind_of t) && negb (a_multiline (attrs_of t)) &&
   negb (kind_eqb (kind_of t) KFuncCall && call_is_table t) &&
   match t with
-  | Leaf k s _ => negb (kind_eqb k KSpace && has_lb s)
+  | Leaf k s _ => negb ((kind_eqb k KSpace || kind_eqb k KRawTrimmed) && has_lb s)
   | Inner _ cs _ => forallb rs cs
   end.
 
@@ -385,11 +383,13 @@ Section Hereditary.
     destruct t as [k s a|k cs a]; cbn [rs children]; intros H; [constructor|].
     apply andb_prop in H. destruct H as [_ H]. apply Forall_forall. apply (proj1 (forallb_forall _ _) H).
   Qed.
-  Lemma rs_space_nolb t : rs t = true -> kind_of t = KSpace -> has_lb (text_of t) = false.
+  Lemma rs_blank_nolb t : rs t = true -> kind_of t = KSpace \/ kind_of t = KRawTrimmed -> has_lb (text_of t) = false.
   Proof.
-    destruct t as [k s a|k cs a]; cbn [rs kind_of text_of]; intros H E; [|reflexivity]. subst k.
-    apply andb_prop in H. destruct H as [_ H]. cbn in H. destruct (has_lb s); [discriminate H|reflexivity].
+    destruct t as [k s a|k cs a]; cbn [rs kind_of text_of]; intros H E; [|reflexivity].
+    apply andb_prop in H. destruct H as [_ H]. destruct E as [-> | ->]; cbn in H; (destruct (has_lb s); [discriminate H|reflexivity]).
   Qed.
+  Lemma rs_space_nolb t : rs t = true -> kind_of t = KSpace -> has_lb (text_of t) = false.
+  Proof. intros H E. apply rs_blank_nolb; [exact H|left; exact E]. Qed.
 
   Lemma verbatim_unb t : unbreakable (convert_verbatim swidth t) = true.
   Proof. apply unb_text. Qed.
@@ -1021,6 +1021,56 @@ Section Hereditary.
       - intros l [Hc Hf]. apply post_ret. unfold lst_doc. apply lst_print_always_unb; assumption.
     Qed.
 
+    (* --- raw elements, references, headings, list/enum/term items --- *)
+    Lemma raw_unb : unbreakable (convert_raw swidth t kids) = true.
+    Proof.
+      unfold convert_raw. destruct (negb _ && _); [apply verbatim_unb|].
+      assert (G : forall l acc, (forall x, In x l -> In x kids) -> unbreakable acc = true ->
+                unbreakable (fold_left (fun d child => match bk child with
+                                                       | KRawDelim | KRawLang => append d (convert_trivia swidth (bt child))
+                                                       | KText => append d (convert_verbatim swidth (bt child))
+                                                       | KRawTrimmed => append d (if has_lb (tx child) then hardline else space)
+                                                       | _ => d end) l acc) = true).
+      { induction l as [|b l IH]; intros acc Hsub Ha; cbn [fold_left]; [exact Ha|].
+        apply IH; [intros x Hx; apply Hsub; right; exact Hx|].
+        unfold bk. destruct (kind_of (bt b)) eqn:Ek; try exact Ha;
+          try (apply unb_append; [exact Ha|first [apply trivia_unb|apply verbatim_unb]]).
+        apply unb_append; [exact Ha|]. unfold tx.
+        rewrite (rs_blank_nolb _ (kid_rs b (Hsub b (or_introl eq_refl))) (or_intror Ek)). reflexivity. }
+      apply G; [auto|reflexivity].
+    Qed.
+    Lemma ref_unb c : c_supp c = true -> post (convert_ref swidth t kids c) unb.
+    Proof.
+      intros Hs. unfold convert_ref.
+      assert (Hd : unbreakable (append (text [64]) (text (ref_target t))) = true) by (apply unb_append; apply unb_text).
+      destruct (find (fun b => kind_eqb (bk b) KContentBlock) (rev kids)) as [sb|] eqn:Ef; [|apply post_ret; exact Hd].
+      apply find_some in Ef. destruct Ef as [Hin Hk]. apply in_rev in Hin.
+      eapply post_bind; [apply kid_call; [exact Hin|exact Hk|exact Hs]|]. intros x Hx. apply post_ret. apply unb_append; assumption.
+    Qed.
+    Lemma heading_unb c : c_supp c = true -> post (convert_heading swidth kids c) unb.
+    Proof.
+      intros Hs. unfold convert_heading. apply flow_like_unb; [apply kids_nc|]. intros c' n Hc Hin.
+      destruct (kind_eqb (bk n) KHeadingMarker); [apply post_ret; apply unb_text|].
+      destruct (kind_eqb (bk n) KMarkup) eqn:Ek; [|apply post_ret; exact I].
+      eapply post_bind; [apply kid_call; [exact Hin|exact Ek|cbn [req_ctx]; rewrite Hc; exact Hs]|]. intros d Hd. apply post_ret. exact Hd.
+    Qed.
+    Lemma list_item_unb c : c_supp c = true -> post (convert_list_item_like swidth cfg kids c) unb.
+    Proof.
+      intros Hs. unfold convert_list_item_like. apply (post_bind _ _ unb); [|intros d Hd; apply post_ret; apply unb_nest; exact Hd].
+      apply flow_like_unb; [apply kids_nc|]. intros c' n Hc Hin. unfold bk.
+      pose proof (not_parbreak n Hin) as Hnp. unfold bk in Hnp.
+      destruct (kind_of (bt n)) eqn:Ek; try discriminate Hnp;
+        try (apply post_ret; first [exact I|apply unb_text]);
+        cbn [kind_eqb andb];
+        try (rewrite ?kind_eqb_refl; cbn [andb]).
+      - (* Markup *)
+        destruct (negb _); [|apply post_ret; exact I].
+        eapply post_bind; [apply kid_call; [exact Hin|unfold ufit, is_kind; rewrite Ek; apply kind_eqb_refl|cbn [req_ctx]; rewrite Hc; exact Hs]|].
+        intros d Hd. apply post_ret. exact Hd.
+      - (* Space *)
+        unfold tx. rewrite (rs_space_nolb _ (kid_rs n Hin) Ek). apply post_ret. exact I.
+    Qed.
+
     (* --- import --- *)
     Lemma In_firstn {A} n (l : list A) x : In x (firstn n l) -> In x l.
     Proof. revert l. induction n as [|n IH]; intros [|y l] H; cbn in *; try contradiction. destruct H; auto. Qed.
@@ -1107,7 +1157,9 @@ Section Hereditary.
               | apply set_rule_unb; exact Hs | apply func_call_unb; [exact E|exact Et|exact Ek|exact Hs]
               | apply content_block_unb; exact Hs | apply strong_unb; exact Hs | apply emph_unb; exact Hs
               | apply math_unb | apply attach_unb; exact Hs | apply frac_unb; exact Hs | apply delimited_unb; exact Hs
-              | apply equation_unb; exact Hs ].
+              | apply equation_unb; exact Hs
+              | apply post_ret; apply raw_unb | apply ref_unb; exact Hs | apply heading_unb; exact Hs
+              | apply list_item_unb; exact Hs ].
     Qed.
     Lemma expr_unb self c : bt self = t -> bkids self = kids -> c_supp c = true -> post (convert_expr swidth cfg self c) unb.
     Proof.
